@@ -113,7 +113,7 @@ def _mats(c):
 def _pairs(ctx, n):
     """unit quaternion pairs (p, q) with named relative angles first, then random ones; both representatives of q"""
     out = []
-    ts = [1e-4, 1.0000001e-4, 3e-4, 1e-3, 5e-3, 5.4e-3, 5.6e-3, 1e-2, 0.1, 0.5, 1.0, math.pi / 2, 2.0, 3.0, 3.1, math.pi - 1e-3,
+    ts = [1e-4, 1.0000001e-4, 1.3e-4, 2e-4, 3e-4, 5e-4, 7.7e-4, 1e-3, 2e-3, 3e-3, 5e-3, 5.4e-3, 5.6e-3, 7e-3, 1e-2, 0.1, 0.5, 1.0, math.pi / 2, 2.0, 3.0, 3.1, math.pi - 1e-3,
           math.pi - 1e-6, math.pi - 1e-9, math.pi]
     rng = ctx.rng
     for i, t in enumerate(ts):
@@ -184,6 +184,23 @@ def closed(t):
 TOL = {'chordal': 1e-10, 'identity_deviation': 1e-10, 'angular_distance': 1e-10, 'qdist': 1e-10, 'qeip': 1e-10, 'qcip': 1e-7, 'qad': 1e-7}
 
 
+def ctol(k, t):
+    """absolute tolerance of the closed-form comparison of metric k at relative angle t: >= 10x the error the unmodified code
+    shows (calibrated on 15 000 pairs per decade of t, 1-D and N-row branch), i.e. a few 1e-15 for the metrics that are
+    well conditioned and eps/sin for the two arccos metrics; it is a RELATIVE 3e-6 for qeip at t = 1e-4 and 3e-8 at 1e-3"""
+    if k in ('qdist', 'qeip'):
+        return 5e-15
+    if k in ('chordal', 'identity_deviation'):
+        return 2e-14
+    if k == 'angular_distance':
+        return 5e-14
+    if k == 'qcip':                      # arccos(|d|), |d| = cos(t/2): error eps / sin(t/2)
+        return min(1e-7, 5e-15 + 1e-14 / max(math.sin(t / 2), 1e-300))
+    if k == 'qad':                       # arccos(cos t): error eps / sin t at both ends, at most sqrt(2 eps) = 2e-8
+        return min(1e-7, 5e-15 + 2e-14 / max(math.sin(t), 1e-300))
+    raise KeyError(k)
+
+
 def _cast(a, form):
     a = np.asarray(a, float)
     if form == 'list':
@@ -231,7 +248,7 @@ def o_pair(inp):
         if not math.isfinite(x) or x < 0:
             return {'tag': f'{k}/negative-or-nonfinite', 'observed': x, 'expected': exp[k]}
     for k, x in v.items():
-        if abs(x - exp[k]) > TOL[k] * max(1.0, exp[k]):
+        if abs(x - exp[k]) > ctol(k, t):
             kind = _ang_region(p, q, t) if k == 'angular_distance' else ('closed-form' if form == 'float64' else f'closed-form-{form}')
             return {'tag': f'{k}/{kind}', 'observed': x, 'expected': exp[k], 'note': f't={t!r}'}
     if t < 1e-4 and t != 0.0:
@@ -305,9 +322,9 @@ def o_rows(inp):
             return {'tag': f'{k}/rows-nonfinite', 'observed': got.tolist(), 'expected': 'finite', 'note': f'N={N}, rows {np.where(~np.isfinite(got))[0].tolist()}'}
         if np.any(got < -1e-12):          # 1 - |p.q| of a coincident row is -2e-16 by rounding: noise, not a violation
             return {'tag': f'{k}/rows-negative', 'observed': got.tolist(), 'expected': '>= 0'}
-        tol = TOL[k] * 10
         for i in range(N):
             e = closed(ts[i])[k]
+            tol = 2 * ctol(k, ts[i])
             if ts[i] == 0.0:
                 if not got[i] <= (1e-7 if k in ('qcip', 'qad') else 1e-12):
                     return {'tag': f'{k}/rows-nonzero-at-coincide', 'observed': got.tolist(), 'expected': 0.0, 'note': f'row {i}'}
@@ -316,6 +333,11 @@ def o_rows(inp):
                 return {'tag': f'{k}/rows-N{N}{sfx}', 'observed': got.tolist(), 'expected': e, 'note': f'row {i}, t={ts[i]!r}'}
             if ts[i] >= 1e-4 and not got[i] > 0:
                 return {'tag': f'{k}/rows-zero-in-range', 'observed': got.tolist(), 'expected': e, 'note': f'row {i}'}
+            if ts[i] >= 1e-4:
+                # the N-row branch agrees with the single call on the same row (same formula, same rounding scale)
+                one = float(getattr(M, k)(_cast(x[i], f), _cast(y[i], f)))
+                if not abs(one - got[i]) <= tol:
+                    return {'tag': f'{k}/rows-vs-single', 'observed': float(got[i]), 'expected': one, 'note': f'row {i}, t={ts[i]!r}'}
     return None
 
 
@@ -364,6 +386,16 @@ def search(ctx, scale):
             Pn = np.array([s[1] for s in sel]); Qn = np.array([s[2] for s in sel])
             inp = {'P': Pn.tolist(), 'Q': Qn.tolist()}
             ctx.check('rows', inp, _call(o_rows, inp), nontrivial_key=(N,) + key(Pn, Qn))
+        # small-angle rows (several per decade between 1e-4 and 1e-2), where a relative error is visible
+        for rep in range(2 * scale):
+            rows = []
+            for i in range(N):
+                t = float(rng.choice([1e-4, 1.3e-4, 2e-4, 3e-4, 5e-4, 7.7e-4, 1e-3, 2e-3, 3e-3, 5e-3, 7e-3, 1e-2])) * float(rng.uniform(1.0, 1.2))
+                pp = cm.rand_unit_quat(rng)
+                qq = cm.unit(cm.qmul(pp, cm.axang_q(rng.standard_normal(3), t)))
+                rows.append((pp, qq if rng.random() < 0.5 else -qq))
+            inp = {'P': [r[0].tolist() for r in rows], 'Q': [r[1].tolist() for r in rows]}
+            ctx.check('rows', inp, _call(o_rows, inp), nontrivial_key=(N, 'small', rep))
         # batches that mix generic rows with coincident rows (identical, negated, scaled copies) and exact half-turns
         kinds = ('same', 'generic', 'neg', 'scaled', 'half-turn', 'neg-scaled', 'same')
         for rep in range(4 * scale):
